@@ -61,4 +61,8 @@ OBLIGATIONS.append({"id": "C05.ctrhmac.iv_in_mac", "harness": "harness/C05/ctrhm
                     "units": ["sm4_ctr_sm3_hmac.c"], "defs": ["-DN=40", "-DAADLEN=3", "-DTOTAL=40", "-DCMIN=8", "-DCMAX=8", "-DEXPECT_IV"],
                     "unwind": 110, "timeout": 600, "cbmc": ["--max-field-sensitivity-array-size", "128"], "expect": "fail", "kf_match": "IV",
                     "title": "finding probe: the IV / counter block is part of the MAC input", "bounds": "one chunking"})
+OBLIGATIONS.append({"id": "C05.ccm.aad_length_encoding", "harness": "harness/C05/ccm_aadlen.c", "entry": "h_ccm_aadlen", "units": ["sm4_ccm.c"],
+                    "unwind": 20, "timeout": 600, "field_sens": 0, "cbmc": ["--max-field-sensitivity-array-size", "0"],
+                    "title": "SM4-CCM encodes the AAD length as RFC 3610 2.2 prescribes for every AAD length 1..70000 (two octets below 0xFF00, FF FE + four octets from there)",
+                    "bounds": "all AAD lengths 1..70000 (contents irrelevant), 1-byte payload", "stubs": ["CBC-MAC: call-structure probe"]})
 NOTE = "C05: authenticated decryption."
